@@ -123,3 +123,23 @@ func verifC20NewDigest(instance string, f verifC20Func, hash string, size int64)
 func verifC20ObserveString(tag, s string) {
 	vnd.ObserveBytes(tag, []byte(s))
 }
+
+// verifC20AnyByte: an arbitrary ASCII byte, or one of two representatives of
+// the non-ASCII bytes (a stray continuation byte, a byte that never occurs in
+// UTF-8). The engine enumerates non-ASCII bytes one by one and concretises the
+// bytes that follow a multi-byte lead, so the class is kept small and without
+// lead bytes; valid multi-byte sequences are covered by concrete cases. The
+// stated bound of C20 is "single bytes >= 0x80".
+func verifC20AnyByte() byte {
+	b := vnd.U8()
+	vnd.Assume(vnd.Or(b < 0x80, vnd.Or(b == 0x80, b == 0xff)))
+	return b
+}
+
+func verifC20AnyString(n int) string {
+	b := make([]byte, n)
+	for i := range b {
+		b[i] = verifC20AnyByte()
+	}
+	return string(b)
+}
